@@ -1,5 +1,6 @@
 """property id -> harness modules (engine X: CrossHair) and z modules (engine Z: z3)"""
 PROPS = {
+    'C20': {'harness': ['harness/C20_jenkins.py']},
     'C13': {'harness': ['harness/recipe_vars.py']},
     'C02': {'z': [('z/digest.py', ['core-collision']), ('z/scripts.py', ['merge-scripts'])], 'harness': ['harness/recipe_vars.py']},
     'C03': {'z': [('z/digest.py', ['noninterference', 'equivalence'])]},
